@@ -747,36 +747,24 @@ Ip::Address::operator !=(const Ip::Address &s) const
 bool
 Ip::Address::operator <=(const Ip::Address &rhs) const
 {
-    if (isAnyAddr() && !rhs.isAnyAddr())
-        return true;
-
     return (matchIPAddr(rhs) <= 0);
 }
 
 bool
 Ip::Address::operator >=(const Ip::Address &rhs) const
 {
-    if (isNoAddr() && !rhs.isNoAddr())
-        return true;
-
     return ( matchIPAddr(rhs) >= 0);
 }
 
 bool
 Ip::Address::operator >(const Ip::Address &rhs) const
 {
-    if (isNoAddr() && !rhs.isNoAddr())
-        return true;
-
     return ( matchIPAddr(rhs) > 0);
 }
 
 bool
 Ip::Address::operator <(const Ip::Address &rhs) const
 {
-    if (isAnyAddr() && !rhs.isAnyAddr())
-        return true;
-
     return ( matchIPAddr(rhs) < 0);
 }
 
